@@ -558,7 +558,7 @@ func (m *c02multi) key() string {
 func c02execMulti(line string) Result {
 	m, err := c02parseMulti(line)
 	if err != nil {
-		return Result{Out: "bad-op " + err.Error(), Tags: []string{"bad-op"}}
+		return Result{Out: "bad-op", Tags: []string{"bad-op", "bad-op:" + err.Error()}}
 	}
 	cls := strings.Fields(line)[0]
 	tags := []string{"class:" + cls, "kind:" + m.k.name, "stor:" + m.stor}
@@ -605,6 +605,10 @@ func c02execMulti(line string) Result {
 					vs = append(vs, m.k.encIn(v))
 				}
 				viol = fmt.Sprintf("%s | %s: gomacro gives [%s], compiled Go gives [%s] (X Y Z I A0 A1 A2 Ma Mb Mc len(M) log)", cacheKey, strings.Join(vs, ","), got, w)
+				if gi, wi := strings.Index(got, "P:"), strings.Index(w, "P:"); gi >= 0 && wi >= 0 && got[gi:] == w[wi:] && strings.HasPrefix(got[gi:], "P:index") {
+					// both panic with an index out of range, but at different moments
+					key = cls + "-" + m.stor + "-index-panic-before-operands"
+				}
 			}
 		} else if viol == "" {
 			viol = "no compiled-Go output for " + cacheKey
@@ -763,6 +767,12 @@ func c02genMulti(g *c02gen) {
 		// index out of range in a multi-assignment (the place operand panics)
 		g.emit(fmt.Sprintf("multi %s G 3 AI X SET RX RY | %s", k.name, strings.Join(g.tuples(k, 1), " ")))
 		g.emit(fmt.Sprintf("multi %s G 3 X AI SET RY RZ | %s", k.name, strings.Join(g.tuples(k, 1), " ")))
+		// ... and in a single assignment
+		g.emit(fmt.Sprintf("multi %s G 3 AI SET RX | %s", k.name, strings.Join(g.tuples(k, 1), " ")))
+		g.emit(fmt.Sprintf("multi %s L 3 SI SET RX | %s", k.name, strings.Join(g.tuples(k, 1), " ")))
+		if k.cat != catBool {
+			g.emit(fmt.Sprintf("multi %s G 3 AI ADD RX | %s", k.name, strings.Join(g.tuples(k, 1), " ")))
+		}
 		nseq := 6
 		if !g.quick {
 			nseq = 60
